@@ -46,9 +46,9 @@ def pcgrad(index, ctx):
     fi = r[1]
     ctx.analysed(fi.qualname)
     # read in canonical shape: helpers of the class/module expanded in place, walrus tests split, reduce(add, generator) as a loop
-    from ..normalize import canonical
+    from ..normalize import inline_helpers, split_walrus, unzip_gathers
 
-    fn = canonical(fi, index)
+    fn = split_walrus(unzip_gathers(inline_helpers(fi, index)))  # = canonical(), with `zip(order, G[order])` walked as `for j in order` reading G[j]
     from ..normalize import unflatten_schedules
 
     fn = unflatten_schedules(fn)  # one loop over a precomputed list of (i, j) pairs is the loop nest the list enumerates
@@ -194,7 +194,7 @@ def pcgrad(index, ctx):
         if isinstance(src, ast.Call) and isinstance(src.func, ast.Name) and src.func.id in ("enumerate", "zip") and src.args:
             src = src.args[-1]
         binds = [a for a in ast.walk(fn) if isinstance(a, ast.Assign) and len(a.targets) == 1 and isinstance(a.targets[0], ast.Name) and isinstance(src, ast.Name) and a.targets[0].id == src.id]
-        if len(binds) == 1 and isinstance(binds[0].value, ast.ListComp) and len(binds[0].value.generators) == 1 and not binds[0].value.generators[0].ifs \
+        if len(binds) == 1 and isinstance(binds[0].value, (ast.ListComp, ast.GeneratorExp)) and len(binds[0].value.generators) == 1 and not binds[0].value.generators[0].ifs \
                 and sum(1 for x_ in ast.walk(binds[0].value.elt) if isinstance(x_, ast.Call) and norm_text(x_.func).endswith("randperm")) == 1 \
                 and isinstance(binds[0].value.generators[0].iter, ast.Call) and norm_text(binds[0].value.generators[0].iter.func) == "range":
             elem_names = {x.id for x in ast.walk(outer.target) if isinstance(x, ast.Name)} - {ivar}
